@@ -5,6 +5,7 @@ import (
 	"encoding/json"
 	"fmt"
 	"sort"
+	"strings"
 	"strconv"
 	"sync"
 	"time"
@@ -724,7 +725,12 @@ func (in *Interner) ccall(e JEntry, nowSec int64, preTaintCount map[string]int) 
 func reorderLag(calls []JEntry, nodes []*v1.Node) []JEntry {
 	idx := map[string]int{}
 	for i, n := range nodes {
-		idx[awsprov.VerifProviderIDToInstanceID(n.Spec.ProviderID)] = i
+		// the harness's own reading of aws:///<zone>/<instance> (bookkeeping must not depend on the function under test)
+		id := ""
+		if parts := strings.Split(n.Spec.ProviderID, "/"); len(parts) >= 5 {
+			id = parts[4]
+		}
+		idx[id] = i
 	}
 	lag := []JEntry{}
 	rest := []JEntry{}
